@@ -159,7 +159,7 @@ func (d *Document) writeJSONValue(buf *bytes.Buffer, value Value) error {
 			// Remove the extra newline that Encode adds
 			buf.Truncate(buf.Len() - 1)
 		} else {
-			buf.Write(quotes.WrapBytes(d.StringValueContentBytes(value.Ref)))
+			writeJSONStringContent(buf, d.StringValueContentBytes(value.Ref))
 		}
 	case ValueKindList:
 		buf.WriteByte(literal.LBRACK_BYTE)
@@ -217,6 +217,28 @@ func (d *Document) writeJSONValue(buf *bytes.Buffer, value Value) error {
 		return fmt.Errorf("ValueToJSON: not implemented for kind: %s", value.Kind.String())
 	}
 	return nil
+}
+
+// writeJSONStringContent writes the content of a (non-block) GraphQL string literal as a JSON string.
+// GraphQL and JSON share their escape sequences, so the content is copied as is, except for raw
+// control characters (a horizontal tab is a legal GraphQL source character), which JSON requires
+// to be escaped.
+func writeJSONStringContent(buf *bytes.Buffer, content []byte) {
+	const hex = "0123456789abcdef"
+	buf.WriteByte('"')
+	for _, c := range content {
+		switch {
+		case c == '\t':
+			buf.WriteString(`\t`)
+		case c < 0x20:
+			buf.WriteString(`\u00`)
+			buf.WriteByte(hex[c>>4])
+			buf.WriteByte(hex[c&0xf])
+		default:
+			buf.WriteByte(c)
+		}
+	}
+	buf.WriteByte('"')
 }
 
 func (d *Document) ValueToJSON(value Value) ([]byte, error) {
